@@ -192,7 +192,8 @@ def _atlas_worker(job):
         D.norm(m0)
         n = len(rec['atoms'])
         anchor = rec['id'].startswith('anchor:')  # fixed witnesses of the recorded defect families: enough draws to fire in every run
-        perms = _perms_for(n, bool(G.n_stereo(rec)), full_limit, 60 if anchor else k_seeded, r)
+        symring = rec['id'].startswith(('sym:', 'biaryl:'))
+        perms = _perms_for(n, bool(G.n_stereo(rec)), full_limit, 60 if anchor else 30 if symring else k_seeded, r)
         ncases, keys, gap, bad, info = _check_molecule(rec['id'], m0, rec, perms, 1, 120 if anchor else n_r, n_rd, r)
         res.append((rec['id'], str(m0), ncases, keys, gap, bad, info, _n_labels(m0), _family(m0, gap, bad)))
     return res
@@ -248,6 +249,12 @@ def bounded(run):
     for i, s in enumerate(G.SPECIAL_SMILES):
         m = D.parse(s)
         recs.append(G.rec_of(m, f'special:{s}', hydrogens=True))
+    sym = G.symmetric_ring_records(extra=1 if quick else 3)
+    sym += [G.rec_of(D.parse(s), f'biaryl:{s}') for s in G.BIARYL_SMILES]
+    run.bound(f'symmetric ring systems: {len(sym)} spiro / fused / bridged bicyclic and dispiro tricyclic systems (ring sizes 3-7, two constitutionally '
+              f'identical rings, O / N / S / N-N / C=O at every position, both relative orientations, seeded two-substituent patterns) and '
+              f'{len(G.BIARYL_SMILES)} symmetric biaryl / fused aromatic systems x 30 seeded numberings + insertion orders, remap, 3 + 2 re-spellings')
+    recs += sym
     from oracles.o01_families import ANCHORS
     anchors = [G.rec_of(D.parse(s), f'anchor:{s}') for fam in ANCHORS.values() for s in fam]
     run.bound(f'anchors: {len(anchors)} fixed witnesses of the recorded defect families (oracles/o01_families.py), identical in every tier / seed, '
